@@ -318,7 +318,10 @@ class MetaMonitor(Monitor):
             else:
                 # the bound keyword still stands for the parameter of that name: it keeps what was annotated there
                 c = sig.parameters.get(k)
-                if c is not None and not (r.annotation is c.annotation or safe_eq(r.annotation, c.annotation)):
+                # (only where the keyword really binds that parameter: a keyword spelled like *args / **kwargs / a
+                # positional-only parameter travels through **kwargs and makes a NEW parameter)
+                if c is not None and c.kind in (c.POSITIONAL_OR_KEYWORD, c.KEYWORD_ONLY) and \
+                        not (r.annotation is c.annotation or safe_eq(r.annotation, c.annotation)):
                     self.V('partial-keyword-annotation-changed', 'binding %r by keyword changed its annotation from %r to %r' % (
                         k, c.annotation, r.annotation), w, rp)
         for r in value.parameters.values():
